@@ -6,6 +6,7 @@
 package verifsimkit
 
 import (
+	"io"
 	"math/rand/v2"
 )
 
@@ -22,6 +23,9 @@ type Tape struct {
 	Rec    []uint32
 	// Max caps the number of choices a run may draw (guards runaway scenarios).
 	Max int
+	// Live, when set, receives every recorded value at once (4 bytes LE), so the
+	// tape of a run that kills its process can be recovered.
+	Live io.Writer
 }
 
 func NewTape(seed uint64) *Tape {
@@ -62,6 +66,9 @@ func (t *Tape) Choose(n int) int {
 	}
 	if len(t.Rec) < t.Max {
 		t.Rec = append(t.Rec, v)
+	}
+	if t.Live != nil {
+		t.Live.Write([]byte{byte(v), byte(v >> 8), byte(v >> 16), byte(v >> 24)})
 	}
 	return int(v)
 }
